@@ -46,6 +46,11 @@ impl Phase for TokenSweep {
             observe::start_parser_trace();
         }
         let v = judge(out, &toks, &src, self.want, self.rule_prefix);
+        // the same token sequence without any optional blank (adjacent literals, signs against digits, …)
+        let tight = gen::render_tight(&toks);
+        if tight != src {
+            judge(out, &toks, &tight, self.want, self.rule_prefix);
+        }
         if hook {
             let states = observe::stop_parser_trace();
             out.count_n("H1 parser-step events", states.len() as u64);
@@ -172,6 +177,10 @@ pub fn check_ast(out: &mut Out, ast: &Ast, mode: Parens, rng: Option<&mut Rng>, 
         return;
     }
     let v = judge(out, &toks, &src, Want::WellFormed, rule_prefix);
+    let tight = gen::render_tight(&toks);
+    if tight != src {
+        judge(out, &toks, &tight, Want::WellFormed, rule_prefix);
+    }
     out.nontrivial(&src);
     out.sample(|| format!("`{}`  ==  {}   [{:?}]", src, ast.sx(), mode));
     let _ = v;
